@@ -826,7 +826,7 @@ fn main() {
         let plan: Vec<(usize, Vec<usize>)> = if ctx.quick() {
             vec![(2, vec![0, 1, 2]), (4, vec![0, 1, 2]), (8, vec![0, 1, 2]), (16, vec![0, 1, 2]), (32, vec![0])]
         } else {
-            vec![(2, vec![0, 1, 2]), (4, vec![0, 1, 2]), (8, vec![0, 1, 2]), (16, vec![0, 1, 2]), (32, vec![0, 1, 2]), (64, vec![0, 1])]
+            vec![(2, vec![0, 1, 2]), (4, vec![0, 1, 2]), (8, vec![0, 1, 2]), (16, vec![0, 1, 2]), (32, vec![0, 1, 2]), (64, vec![0, 1, 2]), (128, vec![0])]
         };
         let cap = ctx.tier.pick(50.0, 840.0);
         let mut squares = vec![];
@@ -856,7 +856,7 @@ fn main() {
         &ctx,
         rep,
         Spec {
-            rule: "squares = EDS widths {2,4,8,16}x3 layouts + 32x'structured' (quick) / {2,..,32}x3 layouts + 64x2 (thorough); namespace family per square = every present namespace (<=64, evenly strided beyond) + the never-present namespace above each chosen user namespace + 9 specials (0, TX, PFB, primary-reserved padding, 0x100, max v0, min secondary reserved, tail padding, parity). Per namespace: completeness of get_namespace_data (1 evaluation); row level: every row of the square x paths {direct struct, wire bytes} x {honest, every listed single mutation}; block level: paths x {honest list, drop/duplicate each row, swap each pair, insert honest data of each covered row and of the first/last uncovered row at each position, 12+ row mutations inside each row}. Cases distinct by construction; inapplicable or no-op mutations are skipped; non-trivial = every mutated candidate",
+            rule: "squares = EDS widths {2,4,8,16}x3 layouts + 32x'structured' (quick) / {2,..,64}x3 layouts + 128x'structured' (thorough); namespace family per square = every present namespace (<=64, evenly strided beyond) + the never-present namespace above each chosen user namespace + 9 specials (0, TX, PFB, primary-reserved padding, 0x100, max v0, min secondary reserved, tail padding, parity). Per namespace: completeness of get_namespace_data (1 evaluation); row level: every row of the square x paths {direct struct, wire bytes} x {honest, every listed single mutation}; block level: paths x {honest list, drop/duplicate each row, swap each pair, insert honest data of each covered row and of the first/last uncovered row at each position, 12+ row mutations inside each row}. Cases distinct by construction; inapplicable or no-op mutations are skipped; non-trivial = every mutated candidate",
             assumptions: &[
                 "payload bytes come from VERIF_SEED (Fill); layouts, widths, namespaces, rows and mutations are enumerated, never sampled",
                 "the square is what ExtendedDataSquare::from_ods produced; the brute-force view is copied from its flat share list and its DAH is re-derived by an independent NMT implementation at fixture build time",
